@@ -135,6 +135,15 @@ func init() {
 						func() {
 							defer func() { recover() }()
 							banderwagon.BatchMapToScalarField(junk, []*banderwagon.Element{&g1, &zero, &g2})
+							// and scalar decodes of over-long and of rejected strings (the map decodes 32 bytes itself)
+							var t fr.Element
+							long := make([]byte, 64)
+							for i := range long {
+								long[i] = byte(0xA0 + i)
+							}
+							t.SetBytesLE(long)
+							t.SetBytes(long[:40])
+							t.SetBytesLECanonical(long)
 						}()
 						in += " after a batch containing a zero-valued Element"
 					}
